@@ -88,16 +88,29 @@ def run(ctx):
     coq_cases, metas = [], []
     bt_cases, bt_metas = [], []
     with bfsrun.Monitors() as mon:
-        for _ in range(ctx.budget(50, 400)):
+        for gi in range(ctx.budget(50, 400)):
             gd = P.gen_invertible_graph(rng, ctx.budget(300, 2500))
             cfgd = G.gen_config(rng, gd)
-            graph = G.make_graph(gd, cfgd)
             layers, dist = G.ref_bfs(gd, [gd["central"]])
             ecc = len(layers) - 1
             D = rng.choice([0, 1, 1, 2, max(1, ecc // 2), rng.randint(0, ecc + 1)])
+            stress = gi % 3 == 2
+            if stress:
+                # the backward search under stress: hashes that are not the identity (un-encoded or multi-word states), tiny batches on the
+                # object the inverted copy is derived from, a ball of half the eccentricity and many targets in (D, 2D]
+                if gd["kind"] == "perm" and rng.random() < 0.7:
+                    cfgd["bit_encoding_width"] = None
+                cfgd["batch_size"] = rng.choice([1, 2, 3])
+                D = max(1, ecc // 2)
+            graph = G.make_graph(gd, cfgd)
             ball = graph.bfs(max_diameter=D, return_all_hashes=True)
             Deff = len(ball.layer_sizes) - 1
             qs = P.query_states(rng, gd, layers, dist, Deff, ctx.budget(4, 7))
+            if stress:
+                ring = [s for s in sorted(dist) if Deff < dist[s] <= 2 * Deff]
+                rng.shuffle(ring)
+                qs = list(qs) + [list(s) for s in ring[: ctx.budget(8, 14)]]
+                ctx.count("stress_graphs")
             ic = bool(graph.definition.generators_inverse_closed)
             qlits = []
             for q in qs:
